@@ -570,7 +570,17 @@ class WorkerPool:
         if task.worker is not None:
           task.worker.call(courier_method='stop_prefetch')
         task.state.cancel()
-      event_loop.call_soon_threadsafe(event_loop.stop)
+
+      async def stop_after_cancelled():
+        # Lets the cancelled coroutines run their cleanup (they release the
+        # capacity of their workers) before the loop is stopped.
+        pending = [
+            t for t in asyncio.all_tasks() if t is not asyncio.current_task()
+        ]
+        await asyncio.gather(*pending, return_exceptions=True)
+        event_loop.stop()
+
+      asyncio.run_coroutine_threadsafe(stop_after_cancelled(), event_loop)
       while not output_queue.empty():
         batch_cnt += 1
         yield output_queue.get()
